@@ -9,6 +9,17 @@ Part 2 (PyVC contracts on the real code): event-emitting handlers across familie
           every emitted event carries time >= the clock at the hand-over point (the yield/return that gives
           it to the engine);  every yielded delay is >= 0;  every loop with a suspension has a progress
           certificate (the clock advances in each iteration, or a measure decreases).
+Extension: the scan covers components/**, load/**, faults/**, instrumentation/** with the classes completion-hook-time,
+        caller-now / interface-now (least fixpoint over the library's call sites), start-time, pre-run-absolute, and
+        the loop certificate `delegation`; every site / loop it still cannot classify must be under a contract
+        (lemma scan.every-unclassified-site-and-loop-is-under-contract).
+Part 2 additionally: ConnectionPool.acquire, Condition.wait_for, CPUScheduler.execute (+ FairShare / PriorityPreemptive),
+        PageCache._evict_one / _ensure_space  - progress certificates as loop `decreases`.
+Part 3 load generation: ArrivalTimeProvider.next_arrival_time (constant-rate path), SimpleEventProvider.get_events,
+        Source.handle_event / start; clause next-arrival-strictly-later only with fixes/C07_source-min-inter-arrival.diff.
+Part 4 self-rescheduling daemons: the period parameter is rejected at construction when <= 0 (table PERIODIC; 15
+        parameters of 12 components only with fixes/C07_daemon-interval-validation.diff).
+Bounded stand-ins (triage/c07_bounded.py): tcp-send-progress, source-profile-path.
 See DESIGN.md section 3-C07.
 """
 from pyvc.spec import *
@@ -112,6 +123,58 @@ loop(F_POOL, "ConnectionPool._handle_warmup", 2, modifies=[("Event", "time")], t
      inv=[("clamped-so-far", lambda L: forall(Int, lambda j: implies((0 <= j) & (j < L.i), mk_bool(
               z3.Select(_time_ns_array(), seq_term(L.seq)[j.t]) >= num(ns(L.emit_time)))), "j")),
           ("emit-time-is-now", lambda L: ns(L.emit_time) == now_ns(L.self))], decreases=_remaining_items)
+
+# ---- loops with a computed delay / a suspension inside a sub-generator (extension) ---------------------------------
+_POOL_CONSTS = [("ConnectionPool", f) for f in ("_target", "_min_connections", "_max_connections", "_connection_timeout",
+                                                 "_idle_timeout", "_connection_latency")]
+
+
+class Lex:
+    """lexicographic measure (major, minor) for `decreases`: the harness evaluates `after < before` and `before >= 0`"""
+
+    def __init__(self, major, minor):
+        self.major, self.minor = major, minor
+
+    def __lt__(self, other):
+        return (self.major < other.major) | ((self.major == other.major) & (self.minor < other.minor))
+
+    def __ge__(self, zero):
+        return (self.major >= zero) & (self.minor >= zero)
+
+
+# ConnectionPool.acquire: `while elapsed < self._connection_timeout: yield poll_interval; elapsed += poll_interval; ...`
+# the poll interval min(0.1, timeout/10) is positive because the constructor validates connection_timeout > 0: the clock
+# advances in every iteration (and `elapsed` runs into the timeout: C09 proves that bound)
+loop(F_POOL, "ConnectionPool.acquire", 1, modifies="world", keeps=WORLD_KEEPS + _POOL_CONSTS,
+     types={"received": lambda: Seq(Bool), "result": lambda: Seq(OptRef(_K["Connection"])),
+            "connection": lambda: OptRef(_K["Connection"])},
+     inv=[("flags-are-one-cell-lists", lambda L: (slen(L.received) == 1) & (slen(L.result) == 1)),
+          ("poll-interval-positive", lambda L: L.poll_interval > 0),
+          ("clock-below-horizon", _below_horizon)],
+     decreases=_time_to_horizon)
+
+# Condition.wait_for: `while not predicate(): ...; yield from self.wait()` - wait() parks on a future at least once
+loop(F_SYNC + "condition.py", "Condition.wait_for", 1, modifies="world", keeps=WORLD_KEEPS,
+     inv=[("clock-below-horizon", _below_horizon)], decreases=_time_to_horizon)
+
+# CPUScheduler.execute: every path through the body suspends for a positive time (a quantum, 1 ms, or the slice
+# min(quantum, remaining) with remaining > 0 from the loop test)
+F_CPU = "happysimulator/components/infrastructure/cpu_scheduler.py"
+loop(F_CPU, "CPUScheduler.execute", 1, modifies="world",
+     keeps=WORLD_KEEPS + [("CPUScheduler", "_policy"), ("CPUScheduler", "_context_switch_s")],
+     types={"ready": lambda: Seq(Ref(_K["CPUTask"])), "selected": lambda: OptRef(_K["CPUTask"]), "quantum": lambda: Real,
+            "run_time": lambda: Real},
+     inv=[("context-switch-cost-nonneg", lambda L: L.self._context_switch_s >= 0), ("clock-below-horizon", _below_horizon)],
+     decreases=_time_to_horizon)
+
+# PageCache._ensure_space: `while len(self._pages) >= self._capacity: yield from self._evict_one()` - an iteration either
+# waits for the write-back of a dirty page (the clock advances) or removes a clean page without suspending
+F_PC = "happysimulator/components/infrastructure/page_cache.py"
+loop(F_PC, "PageCache._ensure_space", 1, modifies="world",
+     keeps=WORLD_KEEPS + [("PageCache", f) for f in ("_capacity", "_disk_write_latency_s", "_disk_read_latency_s")],
+     inv=[("write-back-latency-positive", lambda L: L.self._disk_write_latency_s > 0),
+          ("capacity-positive", lambda L: L.self._capacity >= 1), ("clock-below-horizon", _below_horizon)],
+     decreases=lambda L: Lex(_time_to_horizon(L), slen(L.self._pages)))
 _K = {}
 
 from specs.common import *  # noqa: E402,F401
@@ -200,6 +263,20 @@ def clock_rely(s, b, y):
     return (now1 >= now0) & (w1 < w0)
 
 
+def clock_rely_tick(s, b, y):
+    """clock_rely for loops whose certificate is 'every iteration suspends for a positive delay': a positive delay
+    advances the clock by at least one tick (a positive delay below 1 ns - which the engine truncates to 0 ns - is
+    modelled as 1 ns: sub-nanosecond quanta / intervals are outside the modelled configurations, assumption listed)"""
+    now1 = ns(s.self._clock._current_time)
+    now0 = ns(b.pre(s.self._clock)._current_time)
+    w1, w0 = s.self._clock.g_wakeups_left, b.pre(s.self._clock).g_wakeups_left
+    if is_delay(y):
+        d = delay_of(y)
+        step = delay_ns(d)
+        return (now1 == now0 + ite((d > 0) & (step < 1), 1, step)) & (w1 <= w0)
+    return (now1 >= now0) & (w1 < w0)
+
+
 def delay_nonneg(s, y):
     if not is_delay(y):
         return True
@@ -250,11 +327,45 @@ def _time_ns_array():
 
 
 # ============================================================================ 1. the library-wide scan
-SCAN = _scan(_REPO)
+def _scan_cached(repo):
+    """the scan is a pure function of the library sources and of specs/c07_scan.py: keep its result per content
+    fingerprint (the scan interprets the whole library several times for the caller rule: ~6 s)"""
+    import hashlib
+    import json
+    import os
+    import tempfile
+    h = hashlib.sha256()
+    for dirpath, dirs, files in os.walk(os.path.join(repo, "happysimulator")):
+        dirs.sort()
+        for f in sorted(files):
+            if f.endswith(".py"):
+                p = os.path.join(dirpath, f)
+                h.update(p.encode())
+                h.update(open(p, "rb").read())
+    h.update(open(os.path.join(os.path.dirname(__file__), "c07_scan.py"), "rb").read())
+    path = os.path.join(tempfile.gettempdir(), f"pyvc_c07_scan_{h.hexdigest()[:24]}.json")
+    try:
+        return json.load(open(path, encoding="utf-8"))
+    except (OSError, ValueError):
+        pass
+    result = _scan(repo)
+    try:
+        fd, tmp = tempfile.mkstemp(dir=tempfile.gettempdir(), suffix=".json")
+        with os.fdopen(fd, "w", encoding="utf-8") as out:
+            json.dump(result, out)
+        os.replace(tmp, path)
+    except OSError:
+        pass
+    return result
+
+
+SCAN = _scan_cached(_REPO)
 
 
 def _family(relfile):
     parts = relfile.split("/")
+    if parts[0] != "components":
+        return parts[0]                 # load / faults / instrumentation
     return parts[1] if len(parts) > 2 else parts[1].removesuffix(".py")
 
 
@@ -266,12 +377,19 @@ def _loop_name(c):
     return f'{c["file"]}::{c["function"]}#loop{c["ordinal"]}'
 
 
+# classes of time expressions that give an obligation (the other classes - ctor-pass-through, user-supplied-time - are not
+# emissions of a component: the first is counted at its call sites, the second is stamped by the user's workload script)
+NOW_CLASSES = ("clock-now(+offset)", "caller-now(+offset)", "interface-now(+offset)", "start-time(+offset)",
+               "completion-hook-time(+offset)")
+PROVED_CLASSES = NOW_CLASSES + ("pre-run-absolute",)
+HOOK_CALLS_OK = bool(SCAN["hook_calls"]) and all(h["ok"] for h in SCAN["hook_calls"])
+
 _SITES_BY_FAMILY, _LOOPS_BY_FAMILY = {}, {}
 for _c in SCAN["sites"]:
-    if _c["class"] == "clock-now(+offset)":
+    if _c["class"] in PROVED_CLASSES:
         _SITES_BY_FAMILY.setdefault(_family(_c["file"]), []).append(_c)
 for _c in SCAN["loops"]:
-    if _c["cert_kind"] in ("bounded", "positive-literal"):
+    if _c["cert_kind"] in ("bounded", "positive-literal", "delegation"):
         _LOOPS_BY_FAMILY.setdefault(_family(_c["file"]), []).append(_c)
 
 PROPERTY["scan"] = {
@@ -287,9 +405,18 @@ PROPERTY["scan"] = {
     # loops whose delay is computed / that wait on a sub-generator
     "sites_not_classified": [f'{c["file"]}:{c["line"]} {c["function"]}: time={c["time"]}'
                              for c in SCAN["sites"] if c["class"] == "other"],
+    "sites_that_are_not_component_emissions": [f'{c["file"]}:{c["line"]} {c["function"]}: time={c["time"]} [{c["class"]}]'
+                                               for c in SCAN["sites"] if c["class"] in ("ctor-pass-through", "user-supplied-time")],
+    "records_with_a_time_field_not_events": SCAN["non_events"],
+    "completion_hook_call_sites": [f'{h["file"]}:{h["line"]} {h["function"]}: hook({h["arg"]}) '
+                                   f'[{"clock now" if h["ok"] else "NOT the clock now"}]' for h in SCAN["hook_calls"]],
+    "parameters_that_equal_the_clock_at_entry": SCAN["entry_classes"],
+    "pre_run_builders": sorted({f'{c["file"]} {c["function"]}' for c in SCAN["sites"]
+                                if c["class"] in ("pre-run-absolute", "start-time(+offset)")}),
     "loops_needing_a_contract": [f'{c["file"]}:{c["line"]} {c["function"]}: while {c["head"]}: {", ".join(c["yields"])}'
                                  for c in SCAN["loops"] if c["cert_kind"] == "needs-contract"],
-    "loops_needing_a_contract_covered_in_part_2": ["ConnectionPool._handle_warmup (emission clause only)"],
+    "loops_progress_not_proved_deductively": ["ConnectionPool._handle_warmup (emission clause only)",
+                                              "TCPConnection.send (bounded stand-in tcp-send-progress only)"],
 }
 
 
@@ -303,7 +430,22 @@ def _emission_lemma(sites):
             if c["class"] != "stale":
                 # the scan found no suspension that may take time between the clock read and the hand-over
                 assume(elapsed == 0)
-            oblige(_site_name(c), stamp + offset >= stamp + elapsed)
+            if c["class"] == "pre-run-absolute":
+                # Instant.from_seconds(<configured seconds>) / Instant.Epoch handed to sim.schedule before the run: the
+                # clock then is the start time (Epoch, assumption); the configured absolute time is >= 0 (assumption)
+                cfg = fresh(Real, "configured_seconds")
+                assume(cfg >= 0)
+                t_ns = mk_num(z3.ToInt(num_term(cfg)[0] * 1000000000))
+                clock_at_schedule = 0
+                oblige(_site_name(c), t_ns + 0 >= clock_at_schedule + elapsed)
+                continue
+            value = stamp
+            if c["class"] == "completion-hook-time(+offset)":
+                # the stamp is the hook's argument: it equals the clock iff every hook call site passes the clock now
+                value = fresh(Int, "hook_argument")
+                if HOOK_CALLS_OK:
+                    assume(value == stamp)
+            oblige(_site_name(c), value + offset >= stamp + elapsed)
     return body
 
 
@@ -319,6 +461,12 @@ def _progress_lemma(loops):
             elif c["cert_kind"] == "positive-literal":
                 d = min(float(y.strip("()").split()[-1]) for y in c["yields"])
                 now1, m1 = now0 + int(d * 1e9), m0
+            elif c["cert_kind"] == "delegation":
+                # measure: suspensions the driven sub-generator still has to make (finite: its own loops are in this
+                # census); one iteration consumes exactly one and re-yields its (non-negative) delay
+                d = fresh(Int, "sub_generator_delay_ns")
+                assume(d >= 0)
+                now1, m1 = now0 + d, m0 - 1
             else:
                 # every suspension is `yield 0.0` and the body changes nothing the exit test reads
                 now1, m1 = now0 + 0, m0
@@ -334,6 +482,58 @@ for _fam in sorted(_LOOPS_BY_FAMILY):
 def _modname(c):
     return c["file"].removeprefix("components/").removesuffix(".py").replace("/", ".")
 
+
+def _hook_calls_lemma():
+    """every place of the library that calls a completion hook passes the clock now (the premise of the class
+    completion-hook-time): one obligation per call site, from the scan's syntactic verdict"""
+    for h in SCAN["hook_calls"]:
+        arg, clock = fresh(Int, "hook_argument"), fresh(Int, "clock_at_call")
+        if h["ok"]:
+            assume(arg == clock)        # `self.now`, or `self.time` of the event being invoked (C01: clock == its time)
+        oblige(f'{h["file"]}::{h["function"]}@{h["arg"]}', arg == clock)
+    oblige("some-hook-call-site-found", mk_bool(z3.BoolVal(bool(SCAN["hook_calls"]))))
+
+
+lemma("scan.completion-hooks-called-with-clock-now", _hook_calls_lemma)
+
+# sites / loops the scan cannot classify must be under a PyVC contract (parts 2-3) or a bounded stand-in: a change that
+# turns a classified site into an unclassified one (a caller that stops passing the clock, a hook registered differently,
+# a new construction with a computed time) fails the obligation below instead of silently leaving the census
+COVERED_SITES = {     # (file, function) -> where the emission clause is proved
+    ("load/source.py", "Source.handle_event"): "fn Source.handle_event / payloads-and-next-tick-not-in-the-past",
+    ("load/source.py", "Source.start"): "fn Source.start / first-tick-not-before-the-start",
+}
+COVERED_LOOPS = {     # (file, function) -> where the progress certificate is proved
+    ("components/client/connection_pool.py", "ConnectionPool.acquire"): "loop contract: decreases time-to-horizon",
+    ("components/infrastructure/cpu_scheduler.py", "CPUScheduler.execute"): "loop contract: decreases time-to-horizon",
+    ("components/infrastructure/page_cache.py", "PageCache._ensure_space"): "loop contract: decreases (time-to-horizon, pages)",
+    ("components/sync/condition.py", "Condition.wait_for"): "loop contract: decreases time-to-horizon + wake-ups",
+    ("components/sync/condition.py", "Condition.wait"): "loop contract (_wait_loop)",
+    ("components/sync/barrier.py", "Barrier.wait"): "loop contract (_wait_loop)",
+    ("components/sync/mutex.py", "Mutex.acquire"): "loop contract (_wait_loop)",
+    ("components/sync/rwlock.py", "RWLock.acquire_read"): "loop contract (_wait_loop)",
+    ("components/sync/rwlock.py", "RWLock.acquire_write"): "loop contract (_wait_loop)",
+    ("components/sync/semaphore.py", "Semaphore.acquire"): "loop contract (_wait_loop)",
+    # progress NOT proved deductively (listed in evidence):
+    ("components/client/connection_pool.py", "ConnectionPool._handle_warmup"):
+        "emission clause only; every iteration opens one connection towards min_connections (C09: warmed-up-to-min)",
+    ("components/infrastructure/tcp_connection.py", "TCPConnection.send"): "bounded stand-in tcp-send-progress only",
+}
+PROPERTY["scan"]["unclassified_sites_covered_by_contracts"] = {f"{k[0]}::{k[1]}": v for k, v in COVERED_SITES.items()}
+PROPERTY["scan"]["loops_needing_a_contract_covered"] = {f"{k[0]}::{k[1]}": v for k, v in COVERED_LOOPS.items()}
+
+
+def _coverage_lemma():
+    for c in SCAN["sites"]:
+        if c["class"] == "other":
+            oblige(f'site-under-contract:{_site_name(c)}', mk_bool(z3.BoolVal((c["file"], c["function"]) in COVERED_SITES)))
+    for c in SCAN["loops"]:
+        if c["cert_kind"] == "needs-contract":
+            oblige(f'loop-under-contract:{_loop_name(c)}', mk_bool(z3.BoolVal((c["file"], c["function"]) in COVERED_LOOPS)))
+    oblige("census-not-empty", mk_bool(z3.BoolVal(len(SCAN["sites"]) > 150 and len(SCAN["loops"]) > 30)))
+
+
+lemma("scan.every-unclassified-site-and-loop-is-under-contract", _coverage_lemma)
 
 for _c in SCAN["stale"]:
     lemma(f"scan.stale-now[{_modname(_c)}::{_c['function']}#{_c['ordinal']}]", _emission_lemma([_c]))
@@ -486,8 +686,23 @@ fn(RWLock, "acquire_read", focus=CLOCK_FOCUS, uses=[(RWLock, "_has_waiting_write
 stub_of(Barrier, "_break_barrier", modifies=["_waiters", "_barrier_breaks", "_total_wait_time_ns", "_generation"], ensures=[])
 fn(Barrier, "wait", focus=CLOCK_FOCUS, uses=[(Barrier, "_break_barrier")], yields=Yields(**SYNC_YIELDS), ensures=[],
    raises={RuntimeError: [("only-when-broken", lambda s: True)]})
-fn(Condition, "wait", focus=CLOCK_FOCUS, yields=Yields(**SYNC_YIELDS), ensures=[],
-   raises={RuntimeError: [("only-without-the-lock", lambda s: True)]})
+_CW = fn(Condition, "wait", focus=CLOCK_FOCUS, yields=Yields(**SYNC_YIELDS), ensures=[],
+         modifies=["_waiters", "_waits", "_notifies", "_notify_alls", "_wakeups", "_total_wait_time_ns"],
+         raises={RuntimeError: [("only-without-the-lock", lambda s: True)]})
+
+
+class _Parked:
+    """what a caller of Condition.wait sees it yield: a future it parks on (not a delay)"""
+
+
+# wait_for uses the contract of wait (proved right above): wait() suspends on its wake-up future at least once (its flag
+# starts False), i.e. the caller is resumed by a notify of another process - one of the finitely many of the run
+_CW.stub_yield = lambda s: _Parked()
+_CW.returns_none_ok = True          # the generator's return value is None (annotated Generator[float])
+PROPERTY["assumptions"] += ["Condition.wait_for: the predicate is an opaque callable without effect on modelled state"]
+fn(Condition, "wait_for", args={"predicate": Fn(Bool, "predicate"), "timeout": Opt(Real)}, uses=[(Condition, "wait")],
+   focus=CLOCK_FOCUS, yields=Yields(**SYNC_YIELDS), ensures=[],
+   raises={RuntimeError: [("only-without-the-lock", lambda s: Not(s.old(s.self._lock)._locked))]})
 
 # ---- queueing pipeline (clean sample): Queue, QueueDriver, Server -----------------------------------------------------
 # (typing and the QueuePolicy interface contract as in specs/C08.py, where the conservation clauses are proved;
@@ -630,7 +845,8 @@ cls(ConnectionPool, fields={
     "_target": Ref(Entity), "_min_connections": Int, "_max_connections": Int, "_connection_timeout": Real,
     "_idle_timeout": Real, "_connection_latency": Ref(LatencyDistribution), "_on_acquire": POOL_HOOK, "_on_release": POOL_HOOK,
     "_on_timeout": POOL_HOOK, "_idle_connections": Seq(Ref(Connection)), "_active_connections": Map(Int, Ref(Connection)),
-    "_next_connection_id": Int, "_total_connections": Int, "_waiters": Seq(Any), "_next_waiter_id": Int,
+    "_next_connection_id": Int, "_total_connections": Int,
+    "_waiters": Seq(Tuple(Int, TIME, Fn(None, "on_connection_available"))), "_next_waiter_id": Int,
     "_connections_created": Int, "_connections_closed": Int, "_acquisitions": Int, "_releases": Int, "_timeouts": Int,
     "_total_wait_time": Real},
     const=["_target", "_min_connections", "_max_connections", "_connection_timeout", "_idle_timeout", "_connection_latency"],
@@ -642,3 +858,261 @@ fn(ConnectionPool, "_handle_warmup", args={"event": Ref(Event)}, uses=[(LatencyD
    yields=Yields(at_yield=AT_YIELD, rely=[clock_rely], stable=STABLE_CORE), ensures=[
     ("idle-timeout-checks-not-in-the-past", result_not_in_past)])
 fn(ConnectionPool, "warmup", ensures=[("warmup-event-not-in-the-past", result_not_in_past)])
+
+# ---- client: ConnectionPool.acquire (the poll loop of a caller waiting for a released connection) --------------------
+PROPERTY["assumptions"] += [
+    "progress of loops that suspend for a computed positive delay (ConnectionPool.acquire, CPUScheduler.execute, "
+    "PageCache._ensure_space): a positive delay advances the clock by at least one tick - a positive delay below 1 ns "
+    "(truncated to 0 ns by the engine) is modelled as 1 ns; sub-nanosecond quanta / poll intervals / latencies are outside "
+    "the modelled configurations",
+    "ConnectionPool._remove_waiter (a generator expression over the waiter queue) is replaced by a stub that writes only "
+    "_waiters; the hooks on_acquire / on_release / on_timeout are opaque callables without effect on modelled state",
+]
+# body: `deque(t for t in self._waiters if t[0] != waiter_id)` - out of reach; assumed to write only the waiter queue
+stub_of(ConnectionPool, "_remove_waiter", modifies=["_waiters"], ensures=[])
+TICK_YIELDS = dict(at_yield=AT_YIELD, rely=[clock_rely_tick], stable=STABLE_CORE)
+fn(ConnectionPool, "acquire", uses=[(LatencyDistribution, "get_latency"), (ConnectionPool, "_remove_waiter")], focus=CLOCK_FOCUS,
+   yields=Yields(**TICK_YIELDS), ensures=[], raises={TimeoutError: [("only-after-the-wait-loop", lambda s: True)]})
+
+# ---- infrastructure: CPUScheduler.execute (time-sliced task loop) ----------------------------------------------------
+from happysimulator.components.infrastructure.cpu_scheduler import (  # noqa: E402
+    CPUScheduler, CPUTask, SchedulingPolicy, FairShare, PriorityPreemptive)
+
+_K["CPUTask"] = CPUTask
+PROPERTY["assumptions"] += [
+    "CPUScheduler: context_switch_s >= 0 (the constructor does not validate it) - configuration assumption; the policy "
+    "meets the SchedulingPolicy interface: select_next is side-effect free and time_quantum_s returns a positive quantum "
+    "(proved for FairShare and PriorityPreemptive, whose constructors reject quantum_s <= 0); a CPUTask record is written "
+    "only by the execute() call that created it (its remaining_s is stable across that call's suspensions)",
+]
+cls(CPUTask, fields={"task_id": Str, "priority": Int, "remaining_s": Real, "wait_time_s": Real})
+cls(SchedulingPolicy, fields={})
+stub_of(SchedulingPolicy, "select_next", args={"tasks": Seq(Ref(CPUTask))}, returns=OptRef(CPUTask), modifies=[], ensures=[])
+stub_of(SchedulingPolicy, "time_quantum_s", args={"task": Ref(CPUTask)}, returns=Real, modifies=[],
+        ensures=[lambda s: s.result > 0])
+for _P in (FairShare, PriorityPreemptive):
+    cls(_P, fields={"_quantum_s": Real}, const=["_quantum_s"], inv=[("quantum-positive", lambda o: o._quantum_s > 0)])
+    ctor(_P, args={"quantum_s": Real}, ensures=[("quantum-stored", lambda s: s.self._quantum_s == s.quantum_s)],
+         raises={ValueError: [("only-a-non-positive-quantum", lambda s: s.quantum_s <= 0)]})
+    fn(_P, "time_quantum_s", args={"task": Ref(CPUTask)}, ensures=[("quantum-positive", lambda s: s.result > 0)])
+cls(CPUScheduler, fields={"_policy": Ref(SchedulingPolicy), "_context_switch_s": Real, "_ready_queue": Seq(Ref(CPUTask)),
+                          "_running": OptRef(CPUTask), "_tasks_completed": Int, "_context_switches": Int,
+                          "_total_cpu_time_s": Real, "_total_cs_overhead_s": Real, "_total_wait_time_s": Real,
+                          "_peak_queue_depth": Int},
+    const=["_policy", "_context_switch_s"], inv=[("context-switch-cost-nonneg", lambda o: o._context_switch_s >= 0)])
+fn(CPUScheduler, "execute", args={"task_id": Str, "cpu_time_s": Real, "priority": Int},
+   uses=[(SchedulingPolicy, "select_next"), (SchedulingPolicy, "time_quantum_s")], focus=CLOCK_FOCUS,
+   yields=Yields(at_yield=AT_YIELD, rely=[clock_rely_tick],
+                 stable=STABLE_CORE + [("CPUTask", "remaining_s"), ("CPUScheduler", "_policy"), ("CPUScheduler", "_context_switch_s")]),
+   ensures=[])
+
+# ---- infrastructure: PageCache._ensure_space (evict until there is room) -----------------------------------------------
+from pyvc.omap import OMap  # noqa: E402
+from happysimulator.components.infrastructure.page_cache import PageCache, _CachedPage  # noqa: E402
+
+PROPERTY["assumptions"] += [
+    "PageCache: disk_write_latency_s > 0 and disk_read_latency_s >= 0 (the constructor validates only capacity_pages >= 1) - "
+    "configuration assumption; _pages is an OrderedDict[int, _CachedPage] modelled by pyvc/omap.py (as in C16)",
+]
+cls(_CachedPage, fields={"page_id": Int, "dirty": Bool})
+cls(PageCache, fields={"_capacity": Int, "_page_size": Int, "_readahead": Int, "_disk_read_latency_s": Real,
+                       "_disk_write_latency_s": Real, "_pages": OMap(Int, Ref(_CachedPage)), "_hits": Int, "_misses": Int,
+                       "_evictions": Int, "_dirty_writebacks": Int, "_readaheads": Int},
+    const=["_capacity", "_page_size", "_readahead", "_disk_read_latency_s", "_disk_write_latency_s"],
+    inv=[("capacity-positive", lambda o: o._capacity >= 1),
+         ("write-back-latency-positive", lambda o: o._disk_write_latency_s > 0),
+         ("read-latency-nonneg", lambda o: o._disk_read_latency_s >= 0)])
+PC_YIELDS = dict(at_yield=AT_YIELD, rely=[clock_rely_tick],
+                 stable=STABLE_CORE + [("PageCache", f) for f in ("_capacity", "_disk_write_latency_s", "_disk_read_latency_s")])
+fn(PageCache, "_evict_one", focus=CLOCK_FOCUS, yields=Yields(**PC_YIELDS), ensures=[])
+fn(PageCache, "_ensure_space", focus=CLOCK_FOCUS, yields=Yields(**PC_YIELDS), ensures=[])
+
+# ============================================================================ 3. load generation: Source and its providers
+# (happysimulator/load/**: the scan classifies the payload stamps `time=time` as interface-now; the tick stamp
+#  `time=next_time` comes out of the arrival-time provider and needs the contract below)
+from happysimulator.load.source import Source, SimpleEventProvider  # noqa: E402
+from happysimulator.load.source_event import SourceEvent  # noqa: E402
+from happysimulator.load.event_provider import EventProvider  # noqa: E402
+from happysimulator.load.arrival_time_provider import ArrivalTimeProvider  # noqa: E402
+from happysimulator.load.profile import Profile  # noqa: E402
+
+F_ATP = "happysimulator/load/arrival_time_provider.py"
+# the repair C07_source-min-inter-arrival.diff clamps the next arrival to at least 1 ns after the previous one
+ATP_REPAIRED = "_MIN_INTER_ARRIVAL_NS" in open(f"{_REPO}/{F_ATP}", encoding="utf-8").read()
+
+PROPERTY["assumptions"] += [
+    "ArrivalTimeProvider: only the constant-rate fast path of next_arrival_time is under contract (precondition "
+    "_is_constant_rate; the profile path integrates the rate numerically and finds the root with brentq: outside the "
+    "modelled fragment, covered by the bounded stand-in `source-profile-path`); _get_target_integral_value returns a "
+    "non-negative area (1.0 for constant arrivals, -log(1-U) >= 0 for Poisson arrivals) - stub",
+    "a Source is driven only by its own ticks: when a SourceEvent is delivered the provider's current_time is that "
+    "tick's timestamp (it was returned by the previous next_arrival_time call and nobody else advances the provider)",
+    "EventProvider.get_events(time) returns events stamped no earlier than `time` (interface stub; the library's "
+    "implementations stamp exactly `time`: SimpleEventProvider.get_events is verified, the others are scan sites)",
+]
+
+cls(Profile, fields={})
+cls(ArrivalTimeProvider, fields={"profile": Ref(Profile), "current_time": TIME, "_is_constant_rate": Bool,
+                                 "_constant_rate": Real}, const=["profile", "_is_constant_rate", "_constant_rate"])
+stub_of(ArrivalTimeProvider, "_get_target_integral_value", returns=Real, modifies=[], ensures=[lambda s: s.result >= 0])
+
+_ATP_ENSURES = [
+    ("next-arrival-not-before-the-previous-one", lambda s: ns(s.result) >= ns(s.old(s.self).current_time)),
+    ("provider-remembers-the-arrival-it-returned", lambda s: ns(s.self.current_time) == ns(s.result)),
+]
+if ATP_REPAIRED:
+    # progress of every source / probe: at most one tick per instant, whatever the rate (inf, > 1e9/s, tiny Poisson gap)
+    _ATP_ENSURES.append(("next-arrival-strictly-later", lambda s: ns(s.result) > ns(s.old(s.self).current_time)))
+fn(ArrivalTimeProvider, "next_arrival_time", requires=[("constant-rate-path", lambda s: s.self._is_constant_rate),
+                                                       ("provider-time-nonneg", lambda s: ns(s.self.current_time) >= 0)],
+   uses=[(ArrivalTimeProvider, "_get_target_integral_value")], returns=TIME, modifies=["current_time"], ensures=_ATP_ENSURES,
+   raises={RuntimeError: [("only-without-a-positive-rate", lambda s: s.self._constant_rate <= 0),
+                          ("provider-time-unchanged", lambda s: ns(s.self.current_time) == ns(s.old(s.self).current_time))]})
+
+cls(EventProvider, fields={})
+cls(SimpleEventProvider, fields={"_target": Ref(Entity), "_event_type": Str, "_stop_after": Opt(TIME),
+                                 "_context_fn": Opt(Fn(Map(Str, Any), "context_fn")), "_generated": Int})
+cls(SourceEvent, fields={})
+cls(Source, fields={"_event_provider": Ref(EventProvider), "_time_provider": Ref(ArrivalTimeProvider), "_generated_count": Int},
+    const=["_event_provider", "_time_provider"])
+
+
+def all_of(clauses):
+    out = True
+    for c in clauses:
+        out = out & c
+    return out
+
+
+def _all_not_before(lst, t_ns):
+    return forall(Int, lambda j: implies((0 <= j) & (j < slen(lst)), mk_bool(
+        z3.Select(_time_ns_array(), seq_term(lst)[j.t]) >= num(t_ns))), "j")
+
+
+class _FewEvents:
+    """result type of the EventProvider.get_events stub: a plain list of 0, 1 or 2 arbitrary events (the source
+    star-unpacks the list, which needs a concrete length; the library's providers return at most one event)"""
+
+    @staticmethod
+    def fresh(name):
+        n = Int.fresh(name + "_len")
+        if n <= 0:
+            return []
+        if n == 1:
+            return [Ref(Event).fresh(name + "_0")]
+        return [Ref(Event).fresh(name + "_0"), Ref(Event).fresh(name + "_1")]
+
+
+stub_of(EventProvider, "get_events", args={"time": TIME}, returns=_FewEvents, modifies=[],
+        ensures=[lambda s: all_of([ns(e.time) >= ns(s.time) for e in s.result])])
+fn(SimpleEventProvider, "get_events", args={"time": TIME}, requires=[("no-context-callback", lambda s: s.self._context_fn is None)],
+   ensures=[("payload-stamped-with-the-tick-time", lambda s: all_of([ns(e.time) == ns(s.time) for e in s.result])),
+            ("at-most-one-payload", lambda s: len(s.result) <= 1)])
+
+_TICK_ENSURES = [("payloads-and-next-tick-not-in-the-past", result_not_in_past)]
+fn(Source, "handle_event", args={"event": Ref(Event, variants=[SourceEvent])},
+   requires=[ENTERED_AT_EVENT_TIME,
+             ("driven-by-its-own-tick", lambda s: ns(s.self._time_provider.current_time) == ns(s.event.time)),
+             ("constant-rate-path", lambda s: s.self._time_provider._is_constant_rate),
+             ("time-nonneg", lambda s: now_ns(s.self) >= 0)],
+   uses=[(EventProvider, "get_events"), (ArrivalTimeProvider, "next_arrival_time")],
+   focus=lambda s: [s.self._time_provider], ensures=_TICK_ENSURES)
+fn(Source, "start", args={"start_time": TIME},
+   requires=[("constant-rate-path", lambda s: s.self._time_provider._is_constant_rate),
+             ("started-at-the-clock", lambda s: ns(s.start_time) == now_ns(s.self)), ("time-nonneg", lambda s: ns(s.start_time) >= 0)],
+   uses=[(ArrivalTimeProvider, "next_arrival_time")], focus=lambda s: [s.self._time_provider],
+   ensures=[("first-tick-not-before-the-start", result_not_in_past)])
+
+# ---- bounded native stand-ins for code outside the engine's reach ------------------------------------------------------
+def _tcp_standin(seed, tier):
+    """TCPConnection.send: random.random(), int() of the float window, a nested `for` with a suspension and a non-linear
+    RTT keep it out of reach; seeded configurations run through the public API in a clean interpreter"""
+    return run_native_script("triage/c07_bounded.py", "tcp", 60 if tier == "quick" else 3000, seed,
+                             timeout=200 if tier == "quick" else 3000)
+
+
+def _profile_standin(seed, tier):
+    """the profile path of ArrivalTimeProvider.next_arrival_time (adaptive Simpson + brentq)"""
+    return run_native_script("triage/c07_bounded.py", "profile", 3 if tier == "quick" else 40, seed)
+
+
+PROPERTY.setdefault("bounded", [])
+PROPERTY["bounded"].append({"name": "tcp-send-progress",
+                            "bound": "60 (quick) / 3000 (thorough) seeded configurations: 3 congestion controls x loss 0..0.9 x "
+                                     "1 B..500 kB x cwnd 1..64 x base RTT 0..50 ms x RTO 0..1 s; transfer finishes, nothing "
+                                     "discarded as time travel, 8 s wall watchdog per case",
+                            "fn": _tcp_standin})
+PROPERTY["bounded"].append({"name": "source-profile-path",
+                            "bound": "3 (quick) / 40 (thorough) seeded ramp / spike profiles, Poisson and constant arrivals, 1.5 s "
+                                     "simulated (15 s wall per case): ticks never go back, nothing discarded as time travel, at most "
+                                     "5000 arrivals per instant",
+                            "fn": _profile_standin})
+
+# ============================================================================ 4. self-rescheduling daemons
+# A periodic daemon re-arms its own tick at now + period: with period == 0 the tick is re-delivered at the same instant
+# forever (native survey of every periodic component: triage/c07_daemon_intervals.py - 14 components accepted 0 and spun).
+# Certificate: the constructor refuses a non-positive period (`if <param> <= 0: raise ValueError`), so the re-armed tick
+# is strictly later (clock-now(+offset) sites of part 1 with offset > 0).  One obligation per (class, parameter) from the
+# syntactic check c07_scan.ctor_rejects_nonpositive.  Rows marked repair=True are validated only by
+# fixes/C07_daemon-interval-validation.diff: they are obligations once the constructor carries the check (per-row source
+# test), and are listed as open findings in evidence until then.
+from specs.c07_scan import ctor_rejects_nonpositive as _rejects  # noqa: E402
+
+PERIODIC = [   # (file under happysimulator/, class, constructor parameter, needs the repair?)
+    ("components/scheduling/job_scheduler.py", "JobScheduler", "tick_interval", False),
+    ("components/microservice/outbox_relay.py", "OutboxRelay", "poll_interval", False),
+    ("components/microservice/idempotency_store.py", "IdempotencyStore", "cleanup_interval", False),
+    ("components/load_balancer/health_check.py", "HealthChecker", "interval", False),
+    ("instrumentation/probe.py", "_ProbeProfile", "interval_seconds", False),
+    ("components/resilience/hedge.py", "Hedge", "hedge_delay", False),
+    ("components/client/connection_pool.py", "ConnectionPool", "idle_timeout", False),
+    ("components/client/connection_pool.py", "ConnectionPool", "connection_timeout", False),
+    ("components/infrastructure/cpu_scheduler.py", "FairShare", "quantum_s", False),
+    ("components/infrastructure/cpu_scheduler.py", "PriorityPreemptive", "quantum_s", False),
+    ("components/advertising.py", "Advertiser", "evaluation_interval", True),
+    ("components/consensus/flexible_paxos.py", "FlexiblePaxosNode", "heartbeat_interval", True),
+    ("components/consensus/leader_election.py", "LeaderElection", "election_timeout", True),
+    ("components/consensus/leader_election.py", "LeaderElection", "heartbeat_interval", True),
+    ("components/consensus/membership.py", "MembershipProtocol", "probe_interval", True),
+    ("components/consensus/raft.py", "RaftNode", "heartbeat_interval", True),
+    ("components/consensus/raft.py", "RaftNode", "election_timeout_min", True),
+    ("components/deployment/auto_scaler.py", "AutoScaler", "evaluation_interval", True),
+    ("components/deployment/canary_deployer.py", "CanaryDeployer", "evaluation_interval", True),
+    ("components/industrial/perishable_inventory.py", "PerishableInventory", "spoilage_check_interval_s", True),
+    ("components/industrial/breakdown.py", "BreakdownScheduler", "mean_time_to_failure", True),
+    ("components/industrial/breakdown.py", "BreakdownScheduler", "mean_repair_time", True),
+    ("components/infrastructure/garbage_collector.py", "ConcurrentGC", "interval_s", True),
+    ("components/streaming/event_log.py", "EventLog", "retention_check_interval", True),
+    ("components/streaming/stream_processor.py", "StreamProcessor", "watermark_interval_s", True),
+]
+_PERIODIC_ROWS = [(f, k, p, repair, _rejects(_REPO, f, k, p)) for f, k, p, repair in PERIODIC]
+PROPERTY["scan"]["periodic_daemons"] = {
+    "validated_at_construction": [f"{k}.{p}" for f, k, p, repair, ok in _PERIODIC_ROWS if ok],
+    "open_findings_accept_zero_and_spin (fixes/C07_daemon-interval-validation.diff)":
+        [f"{f}: {k}.{p}" for f, k, p, repair, ok in _PERIODIC_ROWS if repair and not ok],
+    "zero_means_disabled (guard `<= 0` at the first tick, no obligation)":
+        ["Agent.heartbeat_interval", "CRDTStore.gossip_interval", "LeaderNode.anti_entropy_interval"],
+    "survey": "triage/c07_daemon_intervals.py",
+}
+PROPERTY["assumptions"] += [
+    "the table PERIODIC of self-rescheduling daemons (class, period parameter) comes from the native survey "
+    "triage/c07_daemon_intervals.py and is trusted to be complete; periods below 1 ns (accepted by every `<= 0` check, "
+    "truncated to 0 ns by the engine) are outside the modelled configurations",
+]
+
+
+def _periodic_lemma():
+    for f, k, p, repair, ok in _PERIODIC_ROWS:
+        if repair and not ok:
+            continue                    # open finding (reported): becomes an obligation with the repair
+        period = fresh(Real, "period_s")
+        constructed = fresh(Bool, "constructor_returned")
+        if ok:
+            assume(implies(constructed, period > 0))        # `if <param> <= 0: raise ValueError` in __init__
+        now0 = fresh(Int, "clock_at_tick")
+        assume(constructed)
+        # the re-armed tick: now + period, with a positive period at least one clock tick later (assumption above)
+        oblige(f"{k}.{p}: re-armed tick strictly later", now0 + ite(period > 0, 1, 0) > now0)
+
+
+lemma("daemons.period-validated-at-construction", _periodic_lemma)
